@@ -24,6 +24,14 @@ def catalogue():
     for d in (0, 1, 2, 3):
         cat.append(dict(kind="illtyped", depth=d))
     cat.append(dict(kind="mixed-keys"))
+    # dicts whose keys cannot be put in order (different types, one type but not mutually orderable, comparison raising an
+    # ArithmeticError, combinations), as argument AND as result (echo), at depth d
+    for i, v in enumerate(DICT_KEY_VARIANTS):
+        cat.append(dict(kind="dict-keys", variant=v, depth=i % 3))
+    # exceptions that cannot be rendered (__str__ / __repr__ raising, __str__ not returning text, an unprintable argument,
+    # a format error inside __str__)
+    for i, c in enumerate(UNRENDERABLE):
+        cat.append(dict(kind="raise", cls=c, msg=MSGS[(3 * i + 1) % len(MSGS)]))
     for d in (0, 2):
         cat.append(dict(kind="arg-surrogate", depth=d))
     for i, m in enumerate(MSGS):
@@ -44,6 +52,9 @@ def catalogue():
     for i, c in enumerate(OWN_NAMES):
         cat.append(dict(kind="raise", cls=c, msg=MSGS[(2 * i + 1) % len(MSGS)]))
         cat.append(dict(kind="relay", cls=c, msg=MSGS[(2 * i + 4) % len(MSGS)]))
+    # the relay path does not truncate again: fields that are exactly at / were cut to their byte limits
+    for m in (["ascii", 1000], ["latin", 501], ["astral", 300], ["ascii", 5000]):
+        cat.append(dict(kind="relay", cls="LongNameError", msg=m))
     for i, c in enumerate(("ValueError", "MyDeepError", "CafeError", "Rejected@beta")):
         cat.append(dict(kind="relay", cls=c, msg=MSGS[(5 * i + 2) % len(MSGS)]))
     # arguments whose resolution fails asynchronously on the callee: a third-party reference (gift) that the callee's Tub
@@ -57,6 +68,8 @@ def catalogue():
     return cat
 
 
+DICT_KEY_VARIANTS = ["int-str", "tuple-hetero", "bytes-str", "nan-decimals", "mixed-nan", "tuple-nested", "tuple-int", "str-tuple-str"]
+UNRENDERABLE = ["BadStrError", "BadReprError", "NonStrError", "BadArgError", "FormatError"]
 OWN_NAMES = ["foolscap:RemoteException", "foolscap:Violation", "foolscap:BananaError", "foolscap:DeadReferenceError",
              "foolscap:NegotiationError"]
 HOMONYM_NAMES = ["Rejected@alpha", "Rejected@beta", "Rejected@beta.sub", "TimeoutError@builtins", "TimeoutError@twisted",
@@ -118,7 +131,9 @@ def run(ctx):
                 "raising Violation after n tokens at depth d, ill-typed argument at depth d against the callee's "
                 "RemoteInterface, mixed-type dict keys, 7 exception classes x 19 message shapes (empty/ASCII/2-3-4-byte "
                 "characters, lengths around the 1000-byte limit, cut inside a character), unknown method/object, result "
-                "violating the callee's or the caller's schema, unsendable result at depth d; SEVERAL faults in one call: every "
+                "violating the callee's or the caller's schema, unsendable result at depth d; legal dicts whose keys cannot be ordered (8 shapes: mixed types, one type but not mutually "
+                "orderable, comparison raising ArithmeticError) as argument and echoed result at depth 0-2; exceptions that cannot be "
+                "rendered (__str__/__repr__ raising, non-text __str__, unprintable argument, format error); SEVERAL faults in one call: every "
                 "pair of argument positions x every pair of {callee-schema-only, caller-unserializable} fault kinds x known/"
                 "unknown method; exception classes sharing a bare name across modules, every ordered pair, within and across "
                 "batches; foolscap's own exception classes (RemoteException, Violation, BananaError, DeadReferenceError, "
@@ -133,19 +148,28 @@ def run(ctx):
                 "fired and the faulty call really failed (or, for mixed keys, really round-tripped)")
     ctx.assumptions = [
         "Twisted Deferred/Failure and the Loopback transport of foolscap.test.common are used as they are",
-        "the receiver in lib/Send.v is a framing checker that is stricter than Banana.handleData (it compares the numbers "
-        "of ABORT and of discarded CLOSE tokens, the real receiver only counts them); the real receiver is covered by the "
-        "direct oracle (callee-side outcomes), not by the theorem",
-        "the slicers' token *values* are abstracted (TData); the correspondence compares the OPEN/CLOSE/ABORT skeleton with "
-        "its numbers and the count of primitive tokens",
-        "the counting receiver of lib/Send.v (cstate: OPEN numbers, discard, left-behind unslicer) is tied to Banana.handleData / "
-        "call.py only by translated shape facts (counter advanced for rejected OPENs; Call/Answer/ErrorUnslicer.reportViolation "
-        "return the failure) and by the direct oracle (real counters of both ends compared after every batch)",
-        "the inbound delivery queue model (drain) and the wrap model (deliver/wrap) are tied to Broker.doNextCall and "
-        "call.wrap_remote_failure by translated shape facts and by the direct oracle, not by a vm_compute correspondence",
+        "lib/Send.v has two receivers of its own: a framing checker that is stricter than Banana.handleData (it compares the numbers "
+        "of ABORT and of discarded CLOSE tokens, the real receiver only counts them) and a counting receiver (cstate); the counting "
+        "receiver is compared with the real Banana.handleData + PB unslicers token by token in both directions of every batch "
+        "(vm_compute correspondence, real Violations as its `viol` flags); the sender is also composed with the C07 transcription of "
+        "handleData (lib/BananaRecv.v): those two theorems keep the hypothesis that the receiving Banana did not drop the connection",
+        "the slicers' token *values* are abstracted (TData) on the send side; the send correspondence compares the OPEN/CLOSE/ABORT "
+        "skeleton with its numbers and the count of primitive tokens; the composition with BananaRecv quantifies over every wire form "
+        "of the primitive tokens instead",
+        "the delivery-queue model (drain), the wrap / check model (deliver, delivered_check, delivered_type), fail_request and requal are "
+        "hand-written; each is compared with the real code by vm_compute (Broker.scheduleCall/_doCall/callFailed instrumented in every "
+        "batch; ErrorUnslicer.receiveClose + wrap_remote_failure + Failure.check, PendingRequest.fail and CopiedFailure.setCopyableState "
+        "run directly) in addition to the translated shape facts",
+        "get_state is hand-written over the translated truncate and the constants / statement order read from getStateToCopy; compared "
+        "byte for byte with the real FailureSlicer",
+        "that every rejected or failing call is answered by exactly one `error` (callFailed / _callFinished -> ErrorSlicer / AnswerSlicer) "
+        "is not in the Coq model: the direct oracle checks it (every Deferred fires once, waitingForAnswers empty, callee ran exactly the "
+        "expected methods); the receive bookkeeping of those faults (unknown object / method, result violating either schema, aborted "
+        "answer) is inside the counting-receiver correspondence",
         "utf8_decode_ignore is exact only on prefixes of well-formed UTF-8 (proved to be the only inputs truncate gives it)",
         "Tub.setOption('expose-remote-exception-types') -> Broker._expose_remote_exception_types plumbing is checked on a "
         "real Tub/Broker once per run, the batches set the Broker attributes directly",
+        "the receive trace hands each Broker its input one whole token at a time (chunk independence is C07's theorem)",
     ]
     ok, log = ctx.coq_build(["props/C10.vo"])
     from harness import c10_impl as impl
@@ -165,7 +189,7 @@ def run(ctx):
     # 4. correspondence with the Coq models
     model_ok = ok
     if not ok:
-        ok2, _ = ctx.coq_build(["lib/Failure.vo", "lib/Send.vo"])
+        ok2, _ = ctx.coq_build(["lib/Failure.vo", "lib/Send.vo", "lib/Relay.vo"])
         model_ok = ok2
     if model_ok:
         corr_send(ctx, impl, batches)
@@ -173,6 +197,10 @@ def run(ctx):
         t0 = time.time()
         corr_failure(ctx, impl)
         ctx.extra["corr_failure_s"] = round(time.time() - t0, 1)
+        t0 = time.time()
+        corr_recv(ctx, impl, batches)
+        corr_small(ctx, impl)
+        ctx.extra["corr_recv_small_s"] = round(time.time() - t0, 1)
     if not ok:
         # reported even when a failing input was found as well: a known finding must not mask a broken proof
         ctx.fail("proof-broken", "theorem closure props/C10.vo no longer builds against the regenerated gen/FailureGen.v, "
@@ -223,6 +251,11 @@ def judge_faulty(impl, spec, d, opts):
         return None
     if k == "mixed-keys":
         return None if d["ok"] and d["value"] == {1: 2, 'a': 3} else "a dict with keys of mixed types did not round-trip: %r" % (short(d),)
+    if k == "dict-keys":
+        want = impl.nest(spec["depth"], impl.dict_keys_value(spec["variant"]))
+        if d["ok"] and impl.canon_dict(d["value"]) == impl.canon_dict(want):
+            return None
+        return "a legal dict argument whose keys cannot be ordered (%s) did not round-trip: %r" % (spec["variant"], short(d))
     if d["ok"]:
         return "the faulty call succeeded with %r" % (d["value"],)
     expose = opts["expose"]
@@ -275,6 +308,9 @@ def judge_faulty(impl, spec, d, opts):
         f = d["failure"]
         if len(qual(cls).encode()) <= 200 and (f.check(cls) is None or f.check(LookupError if issubclass(cls, LookupError) else Exception) is None):
             return "Failure.check() does not recognise %s" % qual(cls)
+        if spec["cls"] in UNRENDERABLE:
+            # reflect.safe_str's text names the instance by address: only that there IS a rendering can be compared
+            return None if isinstance(d["value"], str) and d["value"] else "the unrenderable exception arrived without any text"
         text = str(cls(impl.message(spec["msg"]))) if k in ("raise", "relay") else str(cls())
         if not trunc_expect(text, 1000)(d["value"]):
             return "value (%d bytes) is not the message / a maximal prefix of it + '..' (message has %d bytes): %r" % (
@@ -328,7 +364,8 @@ def judge_batch(ctx, impl, specs, opts, r, sigsuffix=""):
         else:
             why = judge_faulty(impl, s, d, opts)
             if why:
-                sig = "oracle/call-not-failed" if (d is None or d.get("ok")) and s["kind"] != "mixed-keys" else "oracle/failure-misreported"
+                sig = ("oracle/call-not-failed" if (d is None or d.get("ok")) and s["kind"] not in ("mixed-keys", "dict-keys") else
+                       "oracle/sibling-affected" if s["kind"] in ("mixed-keys", "dict-keys") else "oracle/failure-misreported")
                 bad.append((sig, "call %d (%s): %s" % (i, s["kind"], why)))
     lt = r["later"]
     if len(lt) != 2 or not lt[0]["ok"] or lt[0]["value"] != 42:
@@ -338,7 +375,7 @@ def judge_batch(ctx, impl, specs, opts, r, sigsuffix=""):
                     "more than once, was not delivered intact (value and sharing): got %r"
                     % (impl.shared_value(opts.get("later_shared", "mixed")), short(lt[1]))))
     runs = {"ok": "echo", "ok-add": "add", "shared": "echo", "ok-vocab": "echo", "vocab-method": "call", "typed-ok": "ints",
-            "typed-raise": "tboom", "mixed-keys": "echo", "raise": "boom", "raise-noargs": "boom_noargs",
+            "typed-raise": "tboom", "mixed-keys": "echo", "dict-keys": "echo", "raise": "boom", "raise-noargs": "boom_noargs",
             "result-violates-callee": "wrongresult", "result-violates-caller": "text", "result-unsendable": "unsendable_result"}
     want_exec = []
     for s in specs:
@@ -375,7 +412,7 @@ def run_one(ctx, impl, specs, opts, tag, sigsuffix=""):
     with impl.quiet():
         r = impl.run_batch(specs, opts)
     fine = judge_batch(ctx, impl, specs, opts, r, sigsuffix)
-    nontrivial = all(r["fired"]) and all((d is not None and (not d["ok"] or s["kind"] in ("ok", "ok-add", "shared", "mixed-keys", "multi", "ok-vocab", "vocab-method", "typed-ok")))
+    nontrivial = all(r["fired"]) and all((d is not None and (not d["ok"] or s["kind"] in ("ok", "ok-add", "shared", "mixed-keys", "dict-keys", "multi", "ok-vocab", "vocab-method", "typed-ok")))
                                          for s, d in zip(specs, r["results"]))
     ctx.case([tag, specs, opts], nontrivial=nontrivial and fine)
     for s, d in zip(specs, r["results"]):
@@ -484,7 +521,7 @@ def sweep(ctx, impl):
                     kept.append((specs, opts, r))
     ctx.sample(dict(kind="sweep", specs=kept[7][0], opts=kept[7][1], observed=[short(x) for x in kept[7][2]["results"]]))
     # random batches: 4-6 calls, each faulty with probability 0.4
-    for i in range(ctx.n(60, 1500)):
+    for i in range(ctx.n(40, 1500)):
         size = ctx.rng.choice([4, 5, 6])
         specs = []
         for j in range(size):
@@ -547,6 +584,8 @@ def tree_of(impl, v, seen):
         return "Sub [Tok 0; Tok 0]"
     if isinstance(v, (int, float, bytes)):
         return "Tok 0"
+    if type(v).__name__ == "Decimal":
+        return "Sub [Tok 0; Tok 0]"            # 'decimal', text
     if isinstance(v, str):
         try:
             v.encode("utf-8")
@@ -605,6 +644,8 @@ def call_tree(impl, spec):
         args = [{0: "notalist", 1: [1, "x", 3], 2: [[[1]], "x"], 3: [[[1]], [["x"]], [[2]]]}[spec["depth"]]]
     elif k == "mixed-keys":
         args = [{1: 2, 'a': 3}]
+    elif k == "dict-keys":
+        args = [impl.nest(spec["depth"], impl.dict_keys_value(spec["variant"]))]
     elif k == "arg-surrogate":
         args = [impl.nest(spec["depth"], u"ab\udcffcd")]
     elif k == "raise":
@@ -750,7 +791,9 @@ def failure_cases(ctx, impl):
     cases.append(("MyError", "m", False, [u"p\udc80" * 40, "builtins.object"], None))
     cases.append(("BadStrError", "x", False, None, None))                  # str() raises: reflect.safe_str's text
     cases.append(("BadStrError", "x", True, None, None))
-    for i in range(ctx.n(40, 600)):
+    for c in UNRENDERABLE[1:]:
+        cases.append((c, "x", False, None, None))
+    for i in range(ctx.n(25, 600)):
         k = ctx.rng.choice(["ascii", "latin", "cjk", "astral", "mixed", "asciithen"])
         n = ctx.rng.choice([ctx.rng.randrange(0, 40), ctx.rng.randrange(240, 260), ctx.rng.randrange(320, 340), ctx.rng.randrange(490, 510),
                             ctx.rng.randrange(990, 1010), ctx.rng.randrange(1000, 4000)])
@@ -831,3 +874,208 @@ Eval vm_compute in map (fun c => match get_state (fst c) (snd c) with
                              replay=dict(cls=cls, msg_head=ascii(msg[:20]), n=len(msg), unsafe=unsafe, model=m, impl=o), has_input=False)
     ctx.extra["failure_correspondence_cases"] = len(lines)
     ctx.extra["failure_correspondence_disagreements"] = nbad
+
+
+# ------------------------------------------------------------------------------------------------ correspondence: receive side
+def corr_recv(ctx, impl, batches):
+    """(a) the counting receiver of lib/Send.v (cstate / cstep) against the real Banana.handleData with the real PB unslicers,
+    token by token, in both directions of every batch: the real Broker is handed its input one token at a time; after
+    every token objectCounter, nesting (discardCount + unslicers above the root + pending index phase) and "discarding" are
+    compared with the model run on the same tokens, with `viol` = handleViolation was called by the real code at that token.
+    (b) the delivery-queue model (drain) against what the callee's Broker really did with each delivery, given the real
+    arrival order and the real outcome of each ready_deferred."""
+    entries = []        # (batch index, [(side, c0, coq list of tokens, n)], coq queue)
+    for bi, (specs, opts, r) in enumerate(batches):
+        if any(r["disconnected"]):
+            continue
+        traces = []
+        for side in ("callee", "caller"):
+            c0, rows = r["recv_trace"][side]
+            nviol = sum(1 for x in rows if x[2])
+            # quick tier: a direction in which nothing was rejected only for every fourth batch
+            if not rows or (ctx.tier != "thorough" and bi % 4 and not nviol):
+                continue
+            # one token = one 36-bit primitive integer: objectCounter (12 bits), nesting (8), discarding (1), number (12),
+            # violation (1), kind (2)
+            if any(num >= 4096 or oc >= 4096 or dc + ls >= 255 for _, num, _, oc, dc, ls, _, _ in rows):
+                continue
+            zs = [((((oc << 8 | (dc + ls - 1 + (1 if io else 0))) << 1 | (1 if dc else 0)) << 12 | num) << 3) | (4 if viol else 0) | kind
+                  for kind, num, viol, oc, dc, ls, io, dead in rows]
+            traces.append((side, "(%s, [%s]%%uint63)" % (coq_Z(c0), ";".join(str(z) for z in zs)), len(rows)))
+            ctx.hist("recv_trace_violations", nviol)
+        q = r["deliveries"]["queue"]
+        entries.append((bi, traces, coq_list(["(%d, %s)" % (i, "ReadyFails" if f else "ReadyOk") for i, f in q])))
+        ctx.hist("delivery_queue", "%d deliveries, %d not ready" % (min(len(q), 6), sum(f for _, f in q)))
+    nbad = nbadq = ntr = ntok = 0
+    shard = 170
+    for si in range(0, len(entries), shard):
+        part = entries[si:si + shard]
+        flat = [(bi, side, n) for bi, traces, _ in part for side, _, n in traces]
+        body = """
+Require Import Coq.Numbers.Cyclic.Int63.Uint63.
+Local Open Scope Z_scope.
+Definition obs (c : cstate) : Z * Z * Z * Z := (ccount c, Z.of_nat (cdepth c), (if cdiscard c then 1 else 0), (if cagree c then 0 else 1)).
+Fixpoint cmp (c : cstate) (i : Z) (l : list Uint63.int) : Z * (Z * Z * Z * Z) :=
+  match l with
+  | w :: r =>
+    let z := Uint63.to_Z w in
+    let kk := z mod 8 in let n := (z / 8) mod 4096 in let o := z / 32768 in
+    let t := match kk mod 4 with 0 => TOpen n | 1 => TClose n | 2 => TAbort n | _ => TData 0 end in
+    let c' := cstep c (t, 4 <=? kk) in
+    if (ccount c' =? o / 512) && (Z.of_nat (cdepth c') =? (o / 2) mod 256) && (Bool.eqb (cdiscard c') (o mod 2 =? 1)) && cagree c'
+    then cmp c' (i + 1) r else (i, obs c')
+  | [] => (-1, (0, 0, 0, 0))
+  end.
+Definition cases : list (Z * list Uint63.int) := """ + coq_list([t for _, traces, _ in part for _, t, _ in traces]) + """.
+Eval vm_compute in map (fun c => cmp (cinit (fst c)) 0 (snd c)) cases.
+Definition hcode (h : handled) : Z := match h with Ran i => 2 * i | Refused i => 2 * i + 1 end.
+Definition queues : list (list (Z * readiness)) := """ + coq_list([qq for _, _, qq in part]) + """.
+Eval vm_compute in map (fun q => map hcode (drain false q)) queues.
+"""
+        try:
+            vals, qvals = ctx.coq_eval("C10_recv_%d" % (si // shard), body, requires=REQ_S)
+        except common.CoqEvalError as e:
+            ctx.fail("correspondence-broken", "lib/Send.v (cstep, drain) could not be evaluated: " + str(e)[-1500:], has_input=False)
+            return
+        for (bi, side, n), (idx, mobs) in zip(flat, vals):
+            ctx.traces += 1
+            ntr += 1
+            ntok += n
+            if idx != -1:
+                nbad += 1
+                if nbad <= 2:
+                    specs, opts, r = batches[bi]
+                    row = r["recv_trace"][side][1][idx]
+                    ctx.fail("correspondence/receiver-bookkeeping", "the counting receiver of lib/Send.v and Banana.handleData on the %s disagree at "
+                             "token %d of batch %s: real (kind, number, violation, objectCounter, discardCount, len(receiveStack), inOpen) = %s, "
+                             "model (count, depth, discarding, numbers disagree) = %s" % (
+                                 side, idx, json.dumps(specs), list(row[:7]), list(mobs)),
+                             replay=dict(specs=specs, opts=opts, side=side, token=idx, real=list(row[:7]), model=list(mobs)), has_input=False)
+        for (bi, _, _), mh in zip(part, qvals):
+            ctx.traces += 1
+            specs, opts, r = batches[bi]
+            real = [2 * i + k for k, i in r["deliveries"]["handled"]]
+            if list(mh) != real:
+                nbadq += 1
+                if nbadq <= 2:
+                    ctx.fail("correspondence/delivery-queue", "lib/Send.v (drain) and Broker.doNextCall disagree on batch %s: queue (reqID, "
+                             "readiness failed) %s; model handles %s, the Broker handled %s (2*reqID = ran, 2*reqID+1 = refused)" % (
+                                 json.dumps(specs), r["deliveries"]["queue"], list(mh), real),
+                             replay=dict(specs=specs, opts=opts, queue=r["deliveries"]["queue"], model=list(mh), impl=real), has_input=False)
+    ctx.extra["recv_correspondence_traces"] = ntr
+    ctx.extra["recv_correspondence_tokens"] = ntok
+    ctx.extra["recv_correspondence_disagreements"] = nbad
+    ctx.extra["drain_correspondence_cases"] = len(entries)
+    ctx.extra["drain_correspondence_disagreements"] = nbadq
+
+
+def zl(b):
+    return "[" + ";".join(str(x) for x in b) + "]"
+
+
+def corr_small(ctx, impl):
+    """the caller-side delivery code run directly: ErrorUnslicer.receiveClose + wrap_remote_failure + Failure.check against
+    deliver / delivered_check / delivered_type; PendingRequest.fail against fail_request; the f.type stand-in class of
+    CopiedFailure.setCopyableState against requal"""
+    from foolscap.tokens import RemoteException
+    rx = [qual(c).encode() for c in inspect.getmro(RemoteException)]
+    anc = {"plain": [b"builtins.ValueError", b"builtins.Exception", b"builtins.BaseException", b"builtins.object"],
+           "remote-exception": rx, "violation": [b"foolscap.tokens.Violation"] + rx[1:], "empty": [],
+           "claims-both": [b"app.E", rx[0], b"builtins.object"], "long": [b"p" * 198 + b"..", u"caf\u00e9.E".encode("utf-8")],
+           "dup": [b"a.B", b"a.B"]}
+    types = [b"builtins.ValueError", rx[0], b"foolscap.tokens.Violation", b"NoDots", b"", b"a..b", u"caf\u00e9.E".encode("utf-8")]
+    probes = [b"builtins.ValueError", rx[0], b"builtins.Exception", b"foolscap.tokens.Violation", b"a.B", b"app.E", b"builtins.object",
+              u"caf\u00e9.E".encode("utf-8"), b"p" * 198 + b"..", b"", b"builtins.LookupError"]
+    cases, real, relay_real = [], [], []
+    i = 0
+    types = types + [b"x" * 200, b"m." + b"x" * 198, b"x" * 199]      # dotless names at the limit: the relay adds a byte
+    for an in sorted(anc):
+        for ty in types:
+            for expose in (True, False):
+                i += 1
+                st = dict(type=ty, value=b"v%d" % i, traceback=b"tb", parents=anc[an])
+                with impl.quiet():
+                    w, intact, ftype, checks = impl.real_deliver(st, expose, [p.decode("utf-8") for p in probes])
+                real.append([1 if w else 0, intact, list(ftype.encode("utf-8")), checks])
+                cases.append("(%s, Build_fstate %s %s %s %s)" % (coq_bool(expose), zl(ty), zl(st["value"]), zl(b"tb"),
+                                                                  coq_list([zl(p) for p in anc[an]])))
+                ctx.case(["deliver", an, ty.decode("utf-8"), expose], nontrivial=True)
+                rl = impl.real_relay(st, expose)        # (the same boolean doubles as the middle party's unsafeTracebacks)
+                relay_real.append([list(rl["type"]), list(rl["value"]), list(rl["traceback"]), [list(x) for x in rl["parents"]],
+                                   len(rl["type"]) <= 200] if isinstance(rl, dict) else rl)
+    fr_cases, fr_real = [], []
+    for lr in (True, False):
+        for known in (True, False):
+            for active in (True, False):
+                with impl.quiet():
+                    raised, act, fired = impl.real_fail(lr, known, active)
+                fr_real.append([1 if raised else 0, act, fired])
+                fr_cases.append("(%s, %s, %s)" % (coq_bool(lr), coq_bool(known), coq_bool(active)))
+                ctx.case(["fail", lr, known, active], nontrivial=True)
+                if active and (raised or fired != 1):
+                    ctx.fail("oracle/call-not-failed", "PendingRequest.fail on an active request %s (Deferred fired %d times) with "
+                             "logRemoteFailures=%s on a target %s RemoteInterface" % ("raised" if raised else "returned", fired, lr,
+                                                                                        "with" if known else "without"),
+                             replay=dict(logRemoteFailures=lr, interface_known=known))
+    names = ["a.b.C", "C", "", ".", "a.", ".a", "a..b", u"caf\u00e9.\u4e2d", "builtins.ValueError", "x" * 30 + "." + "y" * 30, "..", "a.b."]
+    rq_real = [[ord(c) for c in impl.real_requal(n)] for n in names]
+    body = """
+Local Open Scope Z_scope.
+Definition dcode (d : delivered) (s : fstate) (probes : list (list Z)) :=
+  (match d with Copied _ => 0 | Wrapped _ => 1 end,
+   match d with Copied s' | Wrapped s' => list_eqb (s_value s') (s_value s) && list_eqb (s_type s') (s_type s)
+                                          && (List.length (s_parents s') =? List.length (s_parents s))%nat end,
+   requal type_name_separator (delivered_type d), map (delivered_check d) probes).
+Definition probes : list (list Z) := """ + coq_list([zl(p) for p in probes]) + """.
+Definition cases : list (bool * fstate) := """ + coq_list(cases) + """.
+Eval vm_compute in map (fun c => dcode (deliver (fst c) (snd c)) (snd c) probes) cases.
+Eval vm_compute in map (fun c => let r := relay_state (fst c) (snd c) in
+   (s_type r, s_value r, s_traceback r, s_parents r, bytestring_ok fc_limit_type (s_type r))) cases.
+Definition fcases : list (bool * bool * bool) := """ + coq_list(fr_cases) + """.
+Eval vm_compute in map (fun c => match c with (lr, known, active) =>
+   match fail_request lr known {| p_active := active; p_fired := 0 |} with
+   | FailDone r => (0, p_active r, Z.of_nat (p_fired r)) | FailRaised r => (1, p_active r, Z.of_nat (p_fired r)) end end) fcases.
+Eval vm_compute in map (requal type_name_separator) """ + coq_list([zl([ord(c) for c in n]) for n in names]) + """.
+"""
+    try:
+        dv, lv, fv, rv = ctx.coq_eval("C10_small", body, requires=REQ_F + ["Verif.gen.SendGen", "Verif.lib.Send", "Verif.lib.Relay"])
+    except common.CoqEvalError as e:
+        ctx.fail("correspondence-broken", "lib/Failure.v / lib/Send.v (deliver, fail_request, requal) could not be evaluated: " + str(e)[-1500:],
+                 has_input=False)
+        return
+    nbad = 0
+    for k, (m, o) in enumerate(zip(dv, real)):
+        ctx.traces += 1
+        mm = [m[0], m[1], list(m[2]), list(m[3])]
+        # (the stand-in class's qual is the requal of the transmitted name: both as UTF-8 bytes)
+        if mm != [o[0], o[1], list(o[2]), o[3]]:
+            nbad += 1
+            if nbad <= 2:
+                ctx.fail("correspondence/delivery", "lib/Failure.v (deliver / delivered_check / delivered_type) and ErrorUnslicer.receiveClose + "
+                         "wrap_remote_failure + Failure.check disagree on case %s: model (wrapped, fields intact, qual(f.type), check(probes)) = %s, "
+                         "implementation %s" % (cases[k][:200], mm, [o[0], o[1], bytes(o[2]).decode("utf-8"), o[3]]),
+                         replay=dict(case=cases[k], model=mm, impl=[o[0], o[1], bytes(o[2]).decode("utf-8"), o[3]]), has_input=False)
+    for k, (m, o) in enumerate(zip(lv, relay_real)):
+        ctx.traces += 1
+        mm = [list(m[0]), list(m[1]), list(m[2]), [list(x) for x in m[3]], m[4]]
+        if mm != o:
+            nbad += 1
+            if nbad <= 2:
+                ctx.fail("correspondence/relay", "lib/Relay.v (relay_state) and CopiedFailureSlicer.getStateToCopy disagree on case %s: model %s, "
+                         "implementation %s" % (cases[k][:200], str(mm)[:300], str(o)[:300]), replay=dict(case=cases[k]), has_input=False)
+    for k, (m, o) in enumerate(zip(fv, fr_real)):
+        ctx.traces += 1
+        if [m[0], m[1], m[2]] != o:
+            nbad += 1
+            ctx.fail("correspondence/request-fail", "lib/Send.v (fail_request) and PendingRequest.fail disagree for (logRemoteFailures, interface known, "
+                     "active) = %s: model (raised, active, fired) = %s, implementation %s" % (fr_cases[k], list(m), o),
+                     replay=dict(case=fr_cases[k], model=list(m), impl=o), has_input=False)
+    for n, m, o in zip(names, rv, rq_real):
+        ctx.traces += 1
+        if list(m) != o:
+            nbad += 1
+            ctx.fail("correspondence/type-name", "lib/Send.v (requal) and the f.type stand-in class of CopiedFailure.setCopyableState disagree on the "
+                     "name %r: model %r, reflect.qual(f.type) = %r" % (n, "".join(chr(c) for c in m), "".join(chr(c) for c in o)),
+                     replay=dict(name=n), has_input=False)
+    ctx.extra["small_correspondence_cases"] = len(cases) + len(fr_cases) + len(names)
+    ctx.extra["small_correspondence_disagreements"] = nbad
